@@ -548,4 +548,164 @@ theorem add_step (m : Bytes) (F : Nat → Tree) (next : Nat) (C : Nat → Tree) 
         · -- cntA
           rw [cnt_substAll, hri.cntA, hct1]
 
+/-! ### histories -/
+
+/-- **the region of this theorem** (decidable on the request): the sentinel is not the empty atom, the
+history consists of additions only (no `restore`), every addition contains the sentinel at most once, and
+an addition that contains it is built with `NodePtr`s of its own (`add:`; `adds:` — nodes shared by content
+— only for sentinel-free additions).  It is contained in `DefectFree` (`defectFreeFresh_sub`). -/
+def DefectFreeFresh (m : Bytes) (adds : List (Bool × Tree)) : Bool :=
+  m != [] && adds.all (fun a => decide (cnt m a.2 ≤ 1) && (decide (cnt m a.2 ≠ 1) || !a.1))
+
+/-- `A` is the tree assembled from `ts`, or the bare sentinel when nothing was added yet -/
+def AsmRel (m : Bytes) : List Tree → Tree → Prop
+  | [], A => A = Tree.atom m
+  | t0 :: r, A => assembleFrom (some m) t0 r = some A
+
+theorem asmRel_snoc {m : Bytes} {ts : List Tree} {A : Tree} (h : AsmRel m ts A) (hc : cnt m A = 1) (t : Tree) :
+    AsmRel m (ts ++ [t]) (substAll m t A) := by
+  cases ts with
+  | nil =>
+    simp only [AsmRel] at h
+    subst h
+    simp [AsmRel, assembleFrom, substAll]
+  | cons t0 r =>
+    simp only [AsmRel] at h
+    show assembleFrom (some m) t0 (r ++ [t]) = _
+    rw [Clvm.Incremental.assembleFrom_snoc, h]
+    exact substFirst_of_one m t A hc
+
+theorem run_region (m : Bytes) : ∀ (rest : List (Bool × Tree)) (s : FSer) (next : Nat) (F : Nat → Tree) (C : Nat → Tree)
+    (A : Tree) (ts : List Tree) (sf : FSer),
+    RI m F next C s A → AsmRel m ts A →
+    (∀ a, a ∈ rest → cnt m a.2 ≤ 1 ∧ (cnt m a.2 = 1 → a.1 = false)) →
+    fRunAdds s next false rest = .ok (sf, true) →
+    ∃ Af, AsmRel m (ts ++ rest.map (·.2)) Af ∧ (ts ++ rest.map (·.2)) ≠ [] ∧ cnt m Af = 0 ∧
+      PSim sf.output.buf [] (Tree.pair Af Tree.nil) := by
+  intro rest
+  induction rest with
+  | nil =>
+    intro s next F C A ts sf _ _ _ h
+    simp [fRunAdds] at h
+  | cons a rest ih =>
+    intro s next F C A ts sf hri hasm hreg h
+    obtain ⟨shared, t⟩ := a
+    simp only [fRunAdds] at h
+    cases ha : s.add (buildNode shared t next).1 with
+    | error e => simp [ha] at h
+    | ok r =>
+      obtain ⟨s', d, u⟩ := r
+      simp only [ha] at h
+      obtain ⟨hc1, hsh⟩ := hreg (shared, t) List.mem_cons_self
+      obtain ⟨hd1, hd0⟩ := add_step m F next C s A hri shared t hc1 hsh s' d u ha
+      have hasm' := asmRel_snoc hasm hri.cntA t
+      cases d with
+      | true =>
+        obtain ⟨q1, q2, q3⟩ := hd1 rfl
+        cases rest with
+        | nil =>
+          simp only [fRunAdds, Except.ok.injEq, Prod.mk.injEq] at h
+          obtain ⟨rfl, _⟩ := h
+          exact ⟨_, by simpa using hasm', by simp, q2, q3⟩
+        | cons b rest2 =>
+          obtain ⟨sh2, t2⟩ := b
+          simp only [fRunAdds] at h
+          have : s'.add (buildNode sh2 t2 (buildNode shared t next).2).1 =
+              .error (.Panic "assertion failed: !self.read_op_stack.is_empty()") := by
+            unfold FSer.add
+            simp [q1]
+          rw [this] at h
+          cases h
+      | false =>
+        obtain ⟨F', C', hri'⟩ := hd0 rfl
+        obtain ⟨Af, r1, r2, r3, r4⟩ := ih s' _ F' C' _ (ts ++ [t]) sf hri' hasm'
+          (fun a ha => hreg a (List.mem_cons_of_mem _ ha)) h
+        refine ⟨Af, ?_, ?_, r3, r4⟩
+        · simpa [List.append_assoc] using r1
+        · simpa [List.append_assoc] using r2
+
+/-- **`Statement` for the faithful model on the region `DefectFreeFresh`, unconditionally.** -/
+theorem faithful_statement_fresh_region (m : Bytes) (adds : List (Bool × Tree)) (hreg : DefectFreeFresh m adds = true) :
+    FaithfulDecodes (some m) adds := by
+  intro s h
+  unfold DefectFreeFresh at hreg
+  simp only [Bool.and_eq_true, bne_iff_ne, ne_eq, List.all_eq_true, decide_eq_true_eq, Bool.or_eq_true,
+    Bool.not_eq_true'] at hreg
+  obtain ⟨hm, hall⟩ := hreg
+  obtain ⟨Af, r1, r2, r3, r4⟩ := run_region m adds _ 0 _ _ _ [] s (ri_new m hm) rfl (by
+    intro a ha
+    obtain ⟨h1, h2⟩ := hall a ha
+    refine ⟨h1, fun h3 => ?_⟩
+    rcases h2 with h2 | h2
+    · exact absurd h3 h2
+    · exact h2) h
+  simp only [List.nil_append] at r1 r2
+  have hasm : assemble (some m) (adds.map (·.2)) = some Af := by
+    cases hl : adds.map (·.2) with
+    | nil => exact absurd hl r2
+    | cons t0 r => rw [hl] at r1; exact r1
+  refine ⟨Af, hasm, noSentinel_of_cnt m Af r3, fun rest c hc => ?_⟩
+  have hold : (∃ e, deBrOld (s.output.buf ++ rest) [.sexp] Tree.nil c = .error e ∧ limitErr e) ∨
+      ∃ c', deBrOld (s.output.buf ++ rest) [.sexp] Tree.nil c = .ok (Af, rest, c') := by
+    rcases r4 rest c hc with ⟨e, he, hle⟩ | ⟨c', _, he⟩
+    · exact .inl ⟨e, he, hle⟩
+    · exact .inr ⟨c', by rw [he]; exact Clvm.Incremental.deBrOld_done Af rest c'⟩
+  exact ⟨hold, Clvm.Incremental.new_of_old _ c hc Af rest hold⟩
+
+/-! ### the region is part of `DefectFree` -/
+
+theorem cnt_eq_countMarker (m : Bytes) : ∀ (t : Tree), Clvm.Proto.countMarker m t = cnt m t := by
+  intro t
+  induction t with
+  | atom b => rfl
+  | pair l r ihl ihr => simp [Clvm.Proto.countMarker, cnt, ihl, ihr]
+
+theorem holedPairs_clean (m : Bytes) : ∀ (t : Tree) (acc : List Tree), cnt m t = 0 →
+    Clvm.Proto.holedPairs m t acc = (false, acc) := by
+  intro t
+  induction t with
+  | atom b =>
+    intro acc h
+    simp only [cnt] at h
+    split at h
+    · cases h
+    · rename_i hb; simp [Clvm.Proto.holedPairs, hb]
+  | pair l r ihl ihr =>
+    intro acc h
+    simp only [cnt] at h
+    simp [Clvm.Proto.holedPairs, ihl acc (by omega), ihr acc (by omega)]
+
+theorem defectFreeFresh_sub (m : Bytes) (adds : List (Bool × Tree)) (h : DefectFreeFresh m adds = true) :
+    DefectFree (some m) adds = true := by
+  unfold DefectFreeFresh at h
+  simp only [Bool.and_eq_true, bne_iff_ne, ne_eq, List.all_eq_true, decide_eq_true_eq, Bool.or_eq_true,
+    Bool.not_eq_true'] at h
+  obtain ⟨_, hall⟩ := h
+  unfold DefectFree
+  simp only [Bool.and_eq_true, List.all_eq_true, decide_eq_true_eq, Bool.not_eq_true']
+  refine ⟨fun a ha => by rw [cnt_eq_countMarker]; exact (hall a ha).1, ?_⟩
+  have hfold : ∀ (l : List (Bool × Tree)), (∀ a, a ∈ l → a ∈ adds) →
+      l.foldl (fun acc a => if a.1 then (Clvm.Proto.holedPairs m a.2 acc).2 else acc) [] = [] := by
+    intro l
+    induction l with
+    | nil => intro _; rfl
+    | cons a r ih =>
+      intro hsub
+      simp only [List.foldl_cons]
+      have ha := hall a (hsub a List.mem_cons_self)
+      have hstep : (if a.1 = true then (Clvm.Proto.holedPairs m a.2 []).2 else []) = [] := by
+        cases hsh : a.1 with
+        | false => simp
+        | true =>
+          simp only [if_true]
+          have hc0 : cnt m a.2 = 0 := by
+            rcases ha.2 with h2 | h2
+            · have := ha.1; omega
+            · rw [hsh] at h2; cases h2
+          rw [holedPairs_clean m a.2 [] hc0]
+      rw [hstep]
+      exact ih (fun b hb => hsub b (List.mem_cons_of_mem _ hb))
+  rw [hfold adds (fun a ha => ha)]
+  rfl
+
 end Clvm.TreeCacheProofs
